@@ -513,6 +513,11 @@ func changeStoreMapping(oldMapping, newMapping mapping.IndexMapping, oldStore, n
 			lowerIntersectionBound := math.Max(outLowerBound, inLowerBound)
 			higherIntersectionBound := math.Min(outHigherBound, inHigherBound)
 			intersectionSize := higherIntersectionBound - lowerIntersectionBound
+			if intersectionSize <= 0 {
+				// Because of rounding errors, the first bin of the new mapping may
+				// end right before the bin of the old mapping starts.
+				continue
+			}
 			proportion := intersectionSize / inSize
 			newStore.AddWithCount(outIndex, proportion*count)
 		}
